@@ -60,6 +60,11 @@ def grid(tier: str) -> List[Dict[str, Any]]:
         if tier == "quick" and mode in ("async_close", "sync_close") and (second is not None or d not in (21, 250, 499, 1199)):
             continue
         pts.append({"kind": kind, "d": d, "jitter": j, "shape": shape, "mode": mode, "second": second})
+    # the synchronous API from a foreign thread: unregister_service alone, and followed at once by close()
+    base = [q for q in pts if q["mode"] == "unregister" and q["second"] is None and q["jitter"] == 0.0]
+    pts += [dict(q, mode="sync_unregister") for q in base[::2]] + [dict(q, mode="sync_unregister_close") for q in base[1::2]]
+    # the service is withdrawn through an equal but different description object (re-created by the application)
+    pts += [dict(q, obj="recreated") for q in pts if q["mode"] == "unregister"][::3]
     # the same on an IPv6-only host (queries from a link-local source): every 5th point
     pts += [dict(q, v6=True) for q in pts[::5]]
     return pts
@@ -93,7 +98,16 @@ def run_point(p: Dict[str, Any], verbose: bool = False) -> Tuple[Optional[Dict[s
         w.advance_to_ms(t0 + U_MS)
         mode = p["mode"]
         if mode == "unregister":
-            task = w.spawn(_unreg(host, infos[0]))
+            task = w.spawn(_unreg(host, make_info(svcs[0]) if p.get("obj") == "recreated" else infos[0]))
+            withdrawn_svcs = [svcs[0]]
+            with_addr = p["shape"] != "shared-host"
+        elif mode in ("sync_unregister", "sync_unregister_close"):
+            with w.outside():
+                host.zc.unregister_service(infos[0])
+                if mode == "sync_unregister_close":
+                    host.zc.close()
+            task = None
+            # judged for the service withdrawn by unregister_service (close withdraws the others in datagrams of their own)
             withdrawn_svcs = [svcs[0]]
             with_addr = p["shape"] != "shared-host"
         elif mode == "unregister_all":
